@@ -45,6 +45,7 @@ pub enum Op {
     DeleteLink { sheet: u32, row: i32, col: i32 },
     CreateNamedStyle { name: String, bold: bool, fmt: String },
     DeleteNamedStyle(String),
+    UpdateNamedStyle { name: String, new_name: String, bold: bool, fmt: String },
     ApplyNamedStyle { area: AreaS, name: String },
     AddCf { sheet: u32, range: String, json: String },
     DeleteCf { sheet: u32, index: u32 },
@@ -79,7 +80,7 @@ pub fn kind(op: &Op) -> &'static str {
         Op::DeleteName { .. } => "delete_defined_name", Op::UpdateName { .. } => "update_defined_name",
         Op::Timezone(_) => "set_timezone", Op::Locale(_) => "set_locale", Op::WorkbookName(_) => "set_name",
         Op::SetLink { .. } => "set_cell_link", Op::DeleteLink { .. } => "delete_cell_link",
-        Op::CreateNamedStyle { .. } => "create_named_style", Op::DeleteNamedStyle(_) => "delete_named_style",
+        Op::CreateNamedStyle { .. } => "create_named_style", Op::DeleteNamedStyle(_) => "delete_named_style", Op::UpdateNamedStyle { .. } => "update_named_style",
         Op::ApplyNamedStyle { .. } => "apply_named_style", Op::AddCf { .. } => "add_conditional_formatting",
         Op::DeleteCf { .. } => "delete_conditional_formatting", Op::AutoFillRows { .. } => "auto_fill_rows",
         Op::AutoFillCols { .. } => "auto_fill_columns", Op::CopyPaste { cut: false, .. } => "copy_paste",
@@ -139,6 +140,13 @@ pub fn apply_op(m: &mut UserModel, op: &Op) -> Result<(), String> {
             m.create_named_style(name, &st, StyleIncludes::default())
         }
         Op::DeleteNamedStyle(n) => m.delete_named_style(n),
+        Op::UpdateNamedStyle { name, new_name, bold, fmt } => {
+            let mut st = Style::default();
+            st.font.b = *bold;
+            st.font.i = !*bold;
+            st.num_fmt = fmt.clone();
+            m.update_named_style(name, new_name, &st, StyleIncludes::default())
+        }
         Op::ApplyNamedStyle { area, name } => {
             m.set_selected_sheet(area.sheet)?;
             m.set_selected_cell(area.row, area.col)?;
@@ -241,7 +249,7 @@ pub fn gen_op(rng: &mut Rng, ctx: &GenCtx, allow_undo_redo: bool) -> Op {
         93 => Op::SetLink { sheet, row, col, target: rng.pick(&["https://example.com", "mailto:a@b.c"]).to_string(), label: if rng.chance(1, 2) { Some("label".into()) } else { None } },
         94 => Op::DeleteLink { sheet, row, col },
         95 => Op::CreateNamedStyle { name: rng.pick(&["MyStyle", "Other", "Normal"]).to_string(), bold: rng.chance(1, 2), fmt: rng.pick(&["general", "0.00"]).to_string() },
-        96 => match ctx.named_styles.last() { Some(n) => if rng.chance(1, 2) { Op::DeleteNamedStyle(n.clone()) } else { Op::ApplyNamedStyle { area: area(rng, sheet), name: n.clone() } }, None => Op::ApplyNamedStyle { area: area(rng, sheet), name: "Normal".into() } },
+        96 => match ctx.named_styles.last() { Some(n) => match rng.below(3) { 0 => Op::DeleteNamedStyle(n.clone()), 1 => Op::UpdateNamedStyle { name: n.clone(), new_name: rng.pick(&["MyStyle", "Other", "Third"]).to_string(), bold: rng.chance(1, 2), fmt: rng.pick(&["general", "0.0"]).to_string() }, _ => Op::ApplyNamedStyle { area: area(rng, sheet), name: n.clone() } }, None => Op::ApplyNamedStyle { area: area(rng, sheet), name: "Normal".into() } },
         97 => if rng.chance(2, 3) { Op::AddCf { sheet, range: rng.pick(&["A1:A6", "B2:C4", "A3", "1:2"]).to_string(), json: rng.pick(&[
                 "{\"type\":\"CellIs\",\"operator\":\"GreaterThan\",\"formula\":\"1\",\"formula2\":null,\"format\":{\"font\":null,\"fill\":null,\"border\":null,\"num_fmt\":null,\"alignment\":null},\"stop_if_true\":false}",
                 "{\"type\":\"Formula\",\"formula\":\"A1>2\",\"format\":{\"font\":null,\"fill\":null,\"border\":null,\"num_fmt\":null,\"alignment\":null},\"stop_if_true\":true}",
